@@ -314,6 +314,7 @@ def rule_decoder_state(ck, R, rule='C06.f'):
     EILSEQ = -84
     sbad = None
     nskip = 0
+    flagwhy = {}
     for p in ps:
         d = p.calls('rfc1055_decode')
         inits = [e for e in p.calls('rfc1055_context_init') if sym.rooted_at(strip_cast(e.args[0]), P) or
@@ -331,15 +332,38 @@ def rule_decoder_state(ck, R, rule='C06.f'):
         ilseq = any(c == ('cmp', '==', r, C(EILSEQ)) for c in p.cond_terms())
         not_ilseq = any(c == ('cmp', '!=', r, C(EILSEQ)) for c in p.cond_terms())
         block = any(c[0] == 'cmp' and c[1] == '!=' and c[3] == C(0) and fmt(c[2]).endswith('buffer.data') for c in p.cond_terms())
+        # -EILSEQ is the decoder's verdict only if the channel did not fail: rfc1055_decode hands a source's own -EILSEQ on
+        # with its state unchanged (D55).  The one accepted witness: a flag the path tests, kept by a tap in front of the
+        # decoder, checked by channel_octet_count(kind='failed').
+        src_failed = src_ok = False
+        for c in p.cond_terms():
+            if c[0] == 'cmp' and c[1] in ('!=', '==') and c[3] == C(0) and strip_cast(c[2])[0] == 'fv':
+                Q = c[2]
+                if (Q, 'f') not in flagwhy:
+                    flagwhy[(Q, 'f')] = channel_octet_count(R, eng, d[0], Q, kind='failed')
+                if flagwhy[(Q, 'f')] is None:
+                    src_failed = src_failed or c[1] == '!='
+                    src_ok = src_ok or c[1] == '=='
+        channel_error = failed and (not_ilseq or src_failed)
         for e in st:
-            if not (failed and not_ilseq and fmt(e.name).endswith('slip.state') and e.args[0] == C(SFE)):
+            if not (channel_error and fmt(e.name).endswith('slip.state') and e.args[0] == C(SFE)):
                 sbad = sbad or ('the decoder state is set to %s under {%s}: regp_recv may only send the decoder to skip-to-end-of-frame when it drops a partly received '
-                                'frame on a channel error other than the decoder\'s own -EILSEQ' % (fmt(e.args[0]), '; '.join(fmt(c) for c in p.cond_terms() if sym.contains(c, r))))
-        if failed and not ilseq and block and p.end == 'return':
+                                'frame on a channel error - a result other than -EILSEQ, or -EILSEQ with the channel itself established to have failed; the decoder\'s own '
+                                '-EILSEQ has arranged the skip, knowing whether the offending octet ended the frame' % (fmt(e.args[0]), '; '.join(fmt(c) for c in p.cond_terms() if sym.contains(c, r))))
+        if failed and block and p.end == 'return' and not (ilseq and src_ok):
             nskip += 1
             if not any(fmt(e.name).endswith('slip.state') and e.args[0] == C(SFE) for e in st):
-                sbad = sbad or ('a channel error ends the call after part of a frame was received (the block is freed), but the decoder stays in its in-frame state: '
-                                'the next call takes the rest of that frame for a frame of its own - a payload containing a frame image is executed and acknowledged')
+                if ilseq:
+                    unread = [w for w in flagwhy.values() if w and w.startswith('?')]
+                    if unread:
+                        return ck.broken(rule, 'regp_recv:decoder-resync', R.where('regp_recv'), 'a path returning -EILSEQ tests a record this rule cannot read: ' + unread[0][1:])
+                    sbad = sbad or ('the call ends with -EILSEQ after part of a frame was received (the block is freed) and leaves the decoder state alone, although nothing on the '
+                                    'path establishes that -EILSEQ is the decoder\'s own verdict: a source may answer -EILSEQ itself, rfc1055_decode hands that on with its state '
+                                    'unchanged (in-frame), and the next call takes the rest of the dropped frame for a frame - a payload containing a frame image is executed and acknowledged'
+                                    + (' [%s]' % '; '.join('%s: %s' % (fmt(q[0]), w) for q, w in flagwhy.items() if w) if any(flagwhy.values()) else ''))
+                else:
+                    sbad = sbad or ('a channel error ends the call after part of a frame was received (the block is freed), but the decoder stays in its in-frame state: '
+                                    'the next call takes the rest of that frame for a frame of its own - a payload containing a frame image is executed and acknowledged')
     if SFE is None:
         ck.broken(rule, 'regp_recv:decoder-resync', R.where('regp_recv'), 'RFC1055_SEARCH_FOR_END not found')
     elif nskip == 0 and sbad is None:
@@ -372,14 +396,17 @@ def _deep_strip(t):
     return t
 
 
-def channel_octet_count(R, eng, d, Q):
+def channel_octet_count(R, eng, d, Q, kind='count'):
     """Is Q (a term met in a path condition after the decode call d) the number of octets the channel delivered during
     that call?  It is when: Q is field f of a local object K whose address the caller stored as the driver context of
     the source object S handed to the decode call; K.f was 0 before the call; K also holds the address of the instance's
     channel source; and the driver function stored in S is a transparent tap - on each of its paths it reads once from
     that source with its own buffer and count, returns the result unchanged, and adds the result to context->f on every
     path on which the result may be positive (no other store to the count).  -> None if so, else the reason; a reason
-    that starts with '?' says the form could not be read (analysis-broken, not a violation)."""
+    that starts with '?' says the form could not be read (analysis-broken, not a violation).
+    kind='failed': Q is instead the record "the channel answered its last request with an error" - same object, same
+    driver, and every path of the driver stores into the field whether the result of its read is negative (a path that
+    leaves the field alone would keep the answer to an earlier request)."""
     Q = strip_cast(Q)
     if not (isinstance(Q, tuple) and Q[0] == 'fv' and Q[1] in eng.call_clobbered):
         return 'not a field of an object the decode call may have written'
@@ -394,18 +421,26 @@ def channel_octet_count(R, eng, d, Q):
     srcf = [f for f, v in pf.items() if strip_cast(v) == chan]
     if len(srcf) != 1:
         return '%s does not hold the address of the instance\'s channel source' % fmt(K)
-    S = strip_cast(d.args[0])
-    if not (S[0] == '&' and S[1] in d.pointees and d.pointees[S[1]][0] == 'struct'
-            and any(strip_cast(v) == ('&', K) for _, v in d.pointees[S[1]][2])):
-        return 'the source handed to the decode call does not carry &%s as its driver context' % fmt(K)
-    # the driver function: a function of this unit named in the initialiser / an assignment of S
+    S = si = None
+    for i_, a_ in enumerate(d.args):
+        a_ = strip_cast(a_)
+        if a_[0] == '&' and a_[1] in d.pointees and d.pointees[a_[1]][0] == 'struct' \
+                and any(strip_cast(v) == ('&', K) for _, v in d.pointees[a_[1]][2]):
+            S, si = a_, i_
+    if S is None:
+        return 'no source handed to the decode call carries &%s as its driver context' % fmt(K)
     drivers = set()
-    known = sym.KNOWN_FUNCTIONS()
+    # the declaration of the source object, through the call's own argument (two branches may each have a `channel`)
+    sid = None
+    for y in cast.walk(d.node['inner'][1 + si]) if d.node is not None and len(d.node.get('inner', [])) > 1 + si else ():
+        if cast.kind(y) == 'DeclRefExpr' and y.get('referencedDecl', {}).get('kind') == 'VarDecl':
+            sid = y['referencedDecl'].get('id')
+            break
     for fn_, fd in R.u.functions.items():
-        if fn_ != 'regp_recv' and known and fn_ in known:
-            continue        # regp_recv itself, or a helper split off it
+        if sid is None:
+            break
         for x in cast.walk(fd):
-            if cast.kind(x) == 'VarDecl' and x.get('name') == S[1][1].rsplit(':', 1)[-1]:      # a local of a helper looked through is 'helper@n:name'
+            if cast.kind(x) == 'VarDecl' and x.get('id') == sid:
                 for y in cast.walk(x):
                     rd = y.get('referencedDecl') if cast.kind(y) == 'DeclRefExpr' else None
                     if rd and rd.get('kind') == 'FunctionDecl' and R.u.fn(rd.get('name')) is not None:
@@ -417,20 +452,30 @@ def channel_octet_count(R, eng, d, Q):
     if not ps:
         return '?driver %s: no paths' % drv
     params = [x.get('name') for x in R.u.fn(drv).get('inner', []) if cast.kind(x) == 'ParmVarDecl']
-    if len(params) != 3:
-        return 'driver %s does not have the chunk-driver signature' % drv
-    ctx, buf, n = (('v', a) for a in params)
+    if len(params) not in (2, 3):
+        return 'driver %s has neither the chunk-driver nor the octet-driver signature' % drv
+    ctx = ('v', params[0])
+    rest_params = [('v', a) for a in params[1:]]
     cnt = ('f', ctx, fld)
     for p in ps:
         rd = [e for e in p.calls() if e.kind == 'call' and e.name.startswith('source_get')]
         if len(p.calls()) != 1 or len(rd) != 1:
             return 'driver %s: a path does not consist of exactly one read from the channel source' % drv
         e = rd[0]
-        if [_deep_strip(a) for a in e.args] != [('f', ctx, srcf[0]), buf, n]:
-            return 'driver %s: reads (%s), not (context->%s, its buffer, its count)' % (drv, ', '.join(fmt(a) for a in e.args), srcf[0])
+        if [_deep_strip(a) for a in e.args] != [('f', ctx, srcf[0])] + rest_params:
+            return 'driver %s: reads (%s), not (context->%s, its own arguments)' % (drv, ', '.join(fmt(a) for a in e.args), srcf[0])
         if p.end != 'return' or _deep_strip(p.ret) != e.result:
             return 'driver %s: does not return the result of the read unchanged' % drv
-        st = [x for x in p.stores() if _deep_strip(x.name) == cnt or (sym.rooted_at(x.name, ctx) and not sym.rooted_at(x.name, ('f', ctx, srcf[0])))]
+        st = [x for x in p.stores() if _deep_strip(x.name) == cnt]
+        if kind == 'failed':
+            if len(st) != 1:
+                return 'driver %s: a path does not record in context->%s whether this read failed (the flag would answer for an earlier request)' % (drv, fld)
+            v = _deep_strip(st[0].args[0])
+            neg = eng.entails(p, L(e.result) + 1)
+            nonneg = eng.entails(p, -L(e.result))
+            if not (v == ('cmp', '<', e.result, C(0)) or (v == C(1) and neg) or (v == C(0) and nonneg)):
+                return 'driver %s: context->%s := %s is not "the read answered an error"' % (drv, fld, fmt(st[0].args[0]))
+            continue
         if not st:
             if not eng.entails(p, L(e.result)):
                 return 'driver %s: a path on which the read may have delivered octets leaves context->%s as it was' % (drv, fld)
